@@ -38,6 +38,48 @@ func runC06(c *engine.Ctx) {
 	c.Rule("R1", "the comparator passed to the sort in Routers.Add orders by location descending (longest prefix first)")
 	n := 0
 	for _, cf := range allAnon(add) {
+		if len(cf.Params) == 1 && cf.Parent() != nil {
+			// ordered insertion instead of append+sort: slices.Insert at slices.IndexFunc(bucket, func(e) bool {
+			// return e.location < location }) keeps the bucket descending (the new element goes before the first
+			// smaller one); `>` would keep it ascending
+			var cmpOp token.Token
+			engine.ForEachInstr(cf, func(in ssa.Instruction) {
+				r, ok := in.(*ssa.Return)
+				if !ok || len(r.Results) != 1 {
+					return
+				}
+				bo, ok := r.Results[0].(*ssa.BinOp)
+				if !ok {
+					return
+				}
+				lf, base := engine.LoadedField(bo.X)
+				_, isFV := engine.Unwrap(bo.Y).(*ssa.FreeVar)
+				if u, ok := engine.Unwrap(bo.Y).(*ssa.UnOp); ok {
+					_, isFV = u.X.(*ssa.FreeVar)
+				}
+				if lf == locF && base == ssa.Value(cf.Params[0]) && isFV {
+					cmpOp = bo.Op
+				}
+			})
+			usesInsert := false
+			engine.ForEachInstr(add, func(in ssa.Instruction) {
+				if call, ok := in.(*ssa.Call); ok {
+					if o := engine.CalleeObj(call); o != nil && o.Pkg() != nil && o.Pkg().Path() == "slices" && o.Name() == "Insert" {
+						usesInsert = true
+					}
+				}
+			})
+			if cmpOp != token.ILLEGAL && usesInsert {
+				n++
+				switch cmpOp {
+				case token.LSS, token.LEQ:
+					c.Hold("pkg/util/vhost.Routers.Add>order", cf.Pos(), 2, nil, "routes are kept in descending location order by insertion before the first smaller location")
+				default:
+					c.Violate("pkg/util/vhost.Routers.Add>order", cf.Pos(), nil, "the insertion point keeps the bucket in ascending location order: the first prefix hit is the shortest, not the most specific")
+				}
+			}
+			continue
+		}
 		if len(cf.Params) != 2 {
 			continue
 		}
@@ -257,6 +299,53 @@ func runC06(c *engine.Ctx) {
 			return ""
 		}}, "exactly the other locations are kept")
 	})
+	// the library form of the same filter: slices.DeleteFunc(copy-or-bucket, func(r) bool { return r.location == location })
+	// removes exactly the elements the predicate accepts — every `true` of the predicate must mean "same location", every
+	// `false` "different location"
+	engine.ForEachInstr(del, func(in ssa.Instruction) {
+		call, ok := in.(*ssa.Call)
+		if !ok {
+			return
+		}
+		o := engine.CalleeObj(call)
+		if o == nil || o.Pkg() == nil || o.Pkg().Path() != "slices" || o.Name() != "DeleteFunc" || len(call.Call.Args) != 2 {
+			return
+		}
+		pf := funcValueOf(p, call.Call.Args[1])
+		if pf == nil {
+			return
+		}
+		kept++
+		n++
+		locParam := func(v ssa.Value) bool {
+			if isParam("location")(v) || isCellOfParam(v, "location") {
+				return true
+			}
+			if fv, ok := v.(*ssa.FreeVar); ok {
+				if b := engine.ClosureBinding(fv); b != nil {
+					return isParam("location")(engine.Unwrap(b))
+				}
+			}
+			return false
+		}
+		c.AllPaths("pkg/util/vhost.Routers.Del>kept", engine.PathCheck{Fn: pf, Sink: engine.IsReturn, Pred: func(st *engine.PathState) string {
+			r := st.Sink.(*ssa.Return)
+			rv := st.Resolve(r.Results[0])
+			if bo, ok := rv.(*ssa.BinOp); ok && (bo.Op == token.EQL || bo.Op == token.NEQ) {
+				sides := loadOfField(locF)(bo.X) && locParam(engine.Unwrap(bo.Y)) || loadOfField(locF)(bo.Y) && locParam(engine.Unwrap(bo.X))
+				if sides && bo.Op == token.EQL {
+					return ""
+				}
+				return "the removal predicate is not `element.location == location`"
+			}
+			b, isC := engine.ConstBool(rv)
+			eq, k := st.Equal(loadOfField(locF), locParam)
+			if !isC || !k || b != eq {
+				return "the removal predicate does not decide by equality of the location"
+			}
+			return ""
+		}}, "exactly the other locations are kept")
+	})
 	if kept == 0 {
 		c.Undecide("pkg/util/vhost.Routers.Del>kept", del.Pos(), "filter loop not recognised")
 	}
@@ -287,6 +376,9 @@ func runC06(c *engine.Ctx) {
 			for _, call := range engine.CallsTo(f, obj) {
 				n++
 				src := engine.Provenance(engine.CallArgs(call)[1], engine.ProvOpts{NoArgs: true})
+				if !src.HasCall(canon) {
+					src = engine.DeepSources(p, engine.CallArgs(call)[1]) // the canonical host may arrive as a parameter
+				}
 				c.Check(src.HasCall(canon), p.FuncName(f)+">"+callee, call.Pos(), len(src.Values), []string{"host: " + src.Summary()}, "the host passed to %s is CanonicalHost(...)", callee)
 			}
 		}
@@ -468,6 +560,12 @@ func runC06(c *engine.Ctx) {
 
 	// ---- R13 ----
 	checkFreshLookup(c, "R13")
+
+	// ---- R14 the request is forwarded over the route its own host, path and user select (shared with C07.R1) ----
+	checkAuthRouteAgreement(c, "R14")
+
+	// ---- R15 a queued un-register closure names the route it registered (shared with C10.R11) ----
+	checkQueuedClosureCaptures(c, "R15")
 }
 
 // checkRequestUserFallback: the user that selects the route is taken from Proxy-Authorization for proxy-form requests
@@ -590,11 +688,13 @@ func planOf(f *ssa.Function) (*walkerPlan, string) {
 		s, secondEmpty := engine.ConstString(a2)
 		pl.userThenAny = firstIsParam && secondEmpty && s == ""
 	}
-	engine.ForEachInstr(f, func(in ssa.Instruction) {
+	var finderCallAt *ssa.Call
+	scan := func(in ssa.Instruction) {
 		switch x := in.(type) {
 		case *ssa.Call:
 			if engine.CalleeFn(x) == pl.finder {
 				pl.finderCalls++
+				finderCallAt = x
 				for _, a := range x.Call.Args {
 					if s, ok := engine.ConstString(a); ok && s == "*" {
 						pl.finalStar = true
@@ -641,7 +741,57 @@ func planOf(f *ssa.Function) (*walkerPlan, string) {
 				}
 			}
 		}
-	})
+	}
+	engine.ForEachInstr(f, scan)
+	// table-driven form: one lookup step inside a loop over the candidates a same-package generator lists for the host
+	// (the host itself first, then the wildcard forms, "*" appended last). The generator is scanned for the same
+	// constants; its first candidate must be its parameter and its result must end with "*".
+	if pl.finderCalls == 1 && finderCallAt != nil && engine.LoopHeader(finderCallAt.Block()) != nil {
+		var gen *ssa.Function
+		engine.ForEachInstr(f, func(in ssa.Instruction) {
+			call, ok := in.(*ssa.Call)
+			if !ok {
+				return
+			}
+			cf := engine.CalleeFn(call)
+			if cf == nil || cf.Blocks == nil || cf.Pkg != f.Pkg || cf == pl.finder || cf.Signature.Results().Len() != 1 {
+				return
+			}
+			if sl, ok := cf.Signature.Results().At(0).Type().Underlying().(*types.Slice); ok {
+				if b, ok := sl.Elem().Underlying().(*types.Basic); ok && b.Kind() == types.String {
+					gen = cf
+				}
+			}
+		})
+		if gen != nil && len(gen.Params) >= 1 {
+			engine.ForEachInstr(gen, scan)
+			firstIsHost, endsWithStar := false, false
+			engine.ForEachInstr(gen, func(in ssa.Instruction) {
+				switch x := in.(type) {
+				case *ssa.Store:
+					if ia, ok := x.Addr.(*ssa.IndexAddr); ok {
+						if k, ok := engine.ConstInt(ia.Index); ok && k == 0 && x.Val == ssa.Value(gen.Params[len(gen.Params)-1]) {
+							firstIsHost = true
+						}
+					}
+				case *ssa.Return:
+					// the returned slice is append(candidates, "*")
+					if call, ok := x.Results[0].(*ssa.Call); ok {
+						if b, ok := call.Call.Value.(*ssa.Builtin); ok && b.Name() == "append" && len(call.Call.Args) == 2 {
+							src := engine.Provenance(call.Call.Args[1], engine.ProvOpts{})
+							if len(src.Consts) >= 1 && src.Consts[`"*"`] {
+								endsWithStar = true
+							}
+						}
+					}
+				}
+			})
+			if firstIsHost && endsWithStar {
+				pl.finalStar = true
+				pl.finderCalls = 3 // exact (first candidate), wildcard walk, catch-all (last candidate)
+			}
+		}
+	}
 	return pl, ""
 }
 
